@@ -160,7 +160,7 @@ pub const C01: Spec = Spec {
   judge: c01_judge,
   opts: Opts::default,
   quick: (8, 15000),
-  thorough: (16, 20000),
+  thorough: (16, 250000),
   extra: None,
   strategy: None,
   assumptions: &["from-scratch evaluator (model.rs) is the specification of a clean build", "external changes only between sessions (P1)", "programs obey the static-role discipline of DESIGN.md §4.2"],
@@ -215,7 +215,7 @@ pub const C02: Spec = Spec {
   judge: c02_judge,
   opts: Opts::default,
   quick: (8, 15000),
-  thorough: (16, 20000),
+  thorough: (16, 250000),
   extra: None,
   strategy: None,
   assumptions: &["task-side log is ground truth for what a task's last execution did", "checker relations of model.rs (O4)"],
@@ -283,7 +283,7 @@ pub const C03: Spec = Spec {
   judge: c03_judge,
   opts: Opts::default,
   quick: (8, 15000),
-  thorough: (16, 20000),
+  thorough: (16, 250000),
   extra: None,
   strategy: None,
   assumptions: &["complete report = every resource changed externally since the last complete bottom-up build (tracked by the history builder)", "C03-F1 (task left stale by a partial top-down build) is attributed by a model-only signature"],
@@ -324,7 +324,7 @@ pub const C04: Spec = Spec {
   judge: c04_judge,
   opts: Opts::default,
   quick: (8, 15000),
-  thorough: (16, 20000),
+  thorough: (16, 250000),
   extra: None,
   strategy: None,
   assumptions: &["recorded require graph = shadow record built from the task-side log"],
@@ -364,7 +364,7 @@ pub const C09: Spec = Spec {
   judge: c09_judge,
   opts: Opts::default,
   quick: (8, 15000),
-  thorough: (16, 20000),
+  thorough: (16, 250000),
   extra: None,
   strategy: None,
   assumptions: &["instrumented checkers and handles of the harness log faithfully", "stamp_* of generated checkers never fail (P9)"],
@@ -443,7 +443,7 @@ pub const C17: Spec = Spec {
   judge: c17_judge,
   opts: composite_opts,
   quick: (8, 8000),
-  thorough: (16, 15000),
+  thorough: (16, 150000),
   extra: Some(c17_extra),
   strategy: None,
   assumptions: &["Rec records every tracker call it receives", "Debug text of EventTracker events is compared with text built from the recorded stream"],
@@ -496,7 +496,7 @@ pub const C18: Spec = Spec {
   judge: c18_judge,
   opts: Opts::default,
   quick: (8, 15000),
-  thorough: (16, 20000),
+  thorough: (16, 250000),
   extra: None,
   strategy: None,
   assumptions: &["only `check` fails, stamp methods never do (P9)"],
@@ -581,7 +581,7 @@ pub const C16: Spec = Spec {
   judge: c16_judge,
   opts: Opts::default,
   quick: (8, 5000),
-  thorough: (16, 12000),
+  thorough: (16, 60000),
   extra: None,
   strategy: None,
   assumptions: &["hash seeds are sampled (5 replays per case at most), not enumerated"],
@@ -694,7 +694,7 @@ pub const C19: Spec = Spec {
   judge: c19_judge,
   opts: Opts::default,
   quick: (8, 15000),
-  thorough: (16, 20000),
+  thorough: (16, 250000),
   extra: Some(c19_extra),
   strategy: None,
   assumptions: &["later bottom-up builds after an abort are not judged (no listed property covers them, P10)", "aborts caused by diagnosed violations are exercised by the C05-C07 checks"],
@@ -807,7 +807,7 @@ pub const C08: Spec = Spec {
   judge: c08_judge,
   opts: dump_opts,
   quick: (8, 15000),
-  thorough: (16, 20000),
+  thorough: (16, 250000),
   extra: None,
   strategy: None,
   assumptions: &["Debug text of checkers and stamps identifies them (true for the harness's and pie's built-in checkers)", "hook: Pie::verif_dump (feature gohla_pie_verif), read-only"],
